@@ -7,7 +7,7 @@ from fvsym import ops
 BOUNDS = {
     "quick": "pre-state: any well-formed tree of skeleton 0/1/2/3-fiber, [1,1], [2,1], [1,0] (coordinates and values symbolic, so explicit "
              "defaults and all-default sub-fibers are models), unowned and tensor-owned; one public mutator with symbolic arguments "
-             "(__setitem__ at every position -n-1..n incl. negative spellings); 2-step histories on 1- and 2-fibers",
+             "(__setitem__ at every position -n-1..n incl. negative spellings); 2-step histories on 1- and 2-fibers and all 3-step histories over {reference write, append, extend, position assignment, updateCoords} on a 1-fiber",
     "thorough": "adds 3-fibers for every op, [2,2] and [[1,1]] skeletons, 2-step histories over all op pairs and selected 3-step histories",
 }
 OUTSIDE = ("histories longer than the bound that depend on hidden state other than coords/payloads/saved position; non-injective "
@@ -55,7 +55,7 @@ def mk(tree, owned, oplist, mirror_=False, budget=None, tag=""):
         an = names("o%d_" % k, n)
         allp += an
         pre += ops.arg_pre(name, d, opt, an)
-        if name in ("iadd_s", "shape_ref"):
+        if name in ("iadd_s", "shape_ref", "iadd_elem"):
             # these loop over the whole shape: coordinates bounded so the trip count is
             _, _, cnames = tree_pre(tree, ns)
             pre += bound_pre(cnames, 0, 4)
@@ -67,7 +67,7 @@ def mk(tree, owned, oplist, mirror_=False, budget=None, tag=""):
 
 def single_ops(d, n_top, tier):
     """all single operations applicable to a tree of depth d whose root has n_top elements"""
-    out = [("ref_assign", {}), ("ref_add", {}), ("posref", {}), ("append", {}), ("clear", {}), ("insert_dep", {}), ("insertOrLookup_dep", {}),
+    out = [("ref_assign", {}), ("ref_add", {}), ("ref_add_elem", {}), ("ref_assign_elem", {}), ("posref", {}), ("append", {}), ("clear", {}), ("insert_dep", {}), ("insertOrLookup_dep", {}),
            ("upd_coords_inc", {}), ("upd_coords_dec", {})]
     for pos in range(-n_top - 1, n_top + 1):
         out.append(("setitem_cp", {"pos": pos}))
@@ -82,7 +82,7 @@ def single_ops(d, n_top, tier):
     if n_top >= 2:
         out.append(("upd_coords_table", {"n": n_top}))
     if d == 1:
-        out += [("iadd_s", {}), ("imul_s", {}), ("upd_payloads", {})]
+        out += [("iadd_s", {}), ("imul_s", {}), ("upd_payloads", {}), ("iadd_elem", {})]
         for n in (1, 2):
             out += [("iadd_f", {"n": n}), ("imul_f", {"n": n}), ("ilshift_f", {"n": n}), ("populate", {"n": n})]
     else:
@@ -153,10 +153,21 @@ def obligations(tier, mirror_=False, tag=""):
             if tier == "quick" and ("populate2" in (a[0], b[0]) or (a[0], b[0]) == ("ref_assign", "ref_assign")):
                 continue
             obs.append(mk([1, 1], True, [a, b], mirror_, tag=tag))
+    if tier == "quick" and not mirror_:
+        # 3-step histories on a 1-fiber: a value remembered by an earlier step (largest coordinate, saved position, active range) must not be
+        # trusted by a later one after the fiber changed in between
+        tri = [("ref_assign", {}), ("append", {}), ("setitem_cp", {"pos": -1}), ("upd_coords_dec", {}), ("extend", {"n": 1})]
+        for a in tri:
+            for b in tri:
+                for c in tri:
+                    obs.append(mk(1, False, [a, b, c], mirror_, tag=tag))
     if tier == "thorough":
-        tri = [("populate", {"n": 1}), ("ref_assign", {}), ("append", {}), ("setitem_cp", {"pos": -1}), ("upd_coords_dec", {})]
+        tri = [("populate", {"n": 1}), ("ref_assign", {}), ("append", {}), ("setitem_cp", {"pos": -1}), ("upd_coords_dec", {}), ("extend", {"n": 1}),
+               ("range_shape_ref", {"span": 2}), ("ilshift_f", {"n": 1})]
         for a in tri:
             for b in tri:
                 for c in tri:
                     obs.append(mk(1, mirror_, [a, b, c], mirror_, tag=tag))
+                    if not mirror_ and "range_shape_ref" not in (a[0], b[0], c[0]) and "ilshift_f" not in (a[0], b[0], c[0]):
+                        obs.append(mk(2, False, [a, b, c], mirror_, tag=tag))
     return obs
